@@ -9,7 +9,7 @@ from ..condgen import CondGen
 from ..rulegen import RuleGen
 from ..ruleterms import RuleT, obs_rule_test, Tags
 from ..pathterms import PathT, Prim, ListT, MapT, MolT, lit, cnd
-from ..terms import Leaf
+from ..terms import Leaf, Bin
 
 PROP = "C05"
 IMPORTS = "Py Lang Defs Cond Dsl Check DocSem PathSpec Path Cast RuleDefs RuleSpec Rule Inst Run RunRule"
@@ -55,6 +55,15 @@ CORPUS = [
     (RuleT(PathT([Prim("sizes"), ListT()]), Leaf("Value", "has_factor", [-2]), []), {"sizes": [8, "%c", 6]}),     # "%c" % -2: OverflowError
     (RuleT(PathT([Prim("n")]), Leaf("Value", "factor_of", ["%c"]), []), {"n": -7}),
     (RuleT(PathT([Prim("sizes"), ListT()]), Leaf("Value", "has_factor", [0]), []), {"sizes": [8, 0, "%z"]}),
+    # several xor operators with every leaf satisfied: the node fails, and the failure still carries a reason
+    (RuleT(PathT([Prim("items"), ListT()]),
+           Bin("and", Bin("xor", Leaf("Value", "greater_than", [0]), Leaf("Value", "less_than", [100])),
+               Bin("xor", Bin("xor", Leaf("Value", "has_factor", [2]), Leaf("Value", "has_factor", [3])), Leaf("Value", "truthy", []))), []),
+     {"items": [6, 12, 5]}),
+    (RuleT(PathT([Prim("items"), ListT()]),
+           Bin("xor", Bin("xor", Bin("xor", Leaf("Value", "truthy", []), Leaf("Value", "greater_than", [0])), Leaf("Value", "less_than", [100])),
+               Leaf("Value", "is_instance", [int])), []),
+     {"items": [6, 0, "a"]}),
     # ONE map-or-list part with key, index and value conditions meeting a mapping and a list (in both orders)
     (RuleT(PathT([MapT(), MolT(key=lit("a"), index=lit(1), value=cnd(Leaf("Value", "greater_than", [0])))]), Leaf("Value", "less_than", [3]), []),
      {"p": {"a": 1, "b": 5}, "q": [1, 5, 7]}),
